@@ -169,6 +169,18 @@ def main():
     out.append('def progFields : List (String × String) := ' + field_list(prog_fields))
     out.append('def regexOptionsFields : List (String × String) := ' + field_list(opt_fields))
     out.append('def vmStateFields : List (String × String) := ' + field_list(state_fields))
+    def chars(x):
+        return '[' + ', '.join(lean_char(ch) for ch in x) + ']'
+
+    def field_list_c(fs):
+        return '[' + ', '.join('(%s, %s)' % (chars(n), chars(t)) for n, t in fs) + ']'
+
+    out.append('/-- the same lists as lists of characters (kernel-reducible, for `decide`) -/')
+    out.append('def regexFieldsC : List (List Char × List Char) := ' + field_list_c(regex_fields))
+    out.append('def regexImplVariantsC : List (List Char × List Char) := ' + field_list_c(impl_variants))
+    out.append('def progFieldsC : List (List Char × List Char) := ' + field_list_c(prog_fields))
+    out.append('def regexOptionsFieldsC : List (List Char × List Char) := ' + field_list_c(opt_fields))
+    out.append('def insnDelegateFieldsC : List Char := ' + chars(re.sub(r'\s+', ' ', re.sub(r'#\[[^\]]*\]', '', insn_delegate.group(1)).strip())))
     out.append('def insnDelegateFields : String := ' + lean_str(re.sub(r'\s+', ' ', re.sub(r'#\[[^\]]*\]', '', insn_delegate.group(1)).strip())))
     out.append('')
     out.append('end Fancy.Generated')
